@@ -245,6 +245,14 @@ pub fn load(dir: &Path, tier: Tier) -> Result<Catalogue, String> {
             if k < 4 && push(&mut sources, format!("w{}:{k}b", s.id), t) {
                 n_near += 1;
             }
+            // plain words (the mnemonic operators are among them) as operands of macro expressions
+            if pct.is_empty() && (k < 4 || k >= 11) {
+                for (c, ctx) in [("%if &a ", " %then x;"), ("%eval(&a ", ")"), ("%if &s=", " %then x;"), ("%sysevalf(1 ", " 2)")].iter().enumerate() {
+                    if push(&mut sources, format!("w{}:{k}o{c}", s.id), format!("{}{v}{}", ctx.0, ctx.1)) {
+                        n_near += 1;
+                    }
+                }
+            }
             // macro keyword variants also where a macro expression may meet them
             if !pct.is_empty() && (k < 4 || k >= 11) {
                 for (c, ctx) in [("%if 1 %", " x;"), ("%eval(5 %", ")"), ("%do i=1 %to 10 %", ";")].iter().enumerate() {
@@ -417,6 +425,8 @@ pub fn load(dir: &Path, tier: Tier) -> Result<Catalogue, String> {
         ("proc sort data=a; by x; run;\n", 1200),
         ("x='it''s'; y=\"&z\";\n", 1800),
         ("%if &a %then %do; %put b; %end;\n", 1100),
+        ("data big; set a; y=x*2; run;\n", 2500),
+        ("%put &a &&b&c 'q' \"&d\";\n", 3500),
     ]
     .iter()
     .enumerate()
@@ -612,6 +622,19 @@ impl Gen<'_> {
                     "4294967296",
                     "1234567890.1234567890123",
                     "00000000000000000001",
+                    "2e19",
+                    "5E19",
+                    "20e18",
+                    "1844674407371e7",
+                    "18446744073709551616e0",
+                    "1e19",
+                    "1e20",
+                    "9e18",
+                    "9223372036854775808e1",
+                    "9007199254740993e0",
+                    "1e308",
+                    "2e308",
+                    "5e-324",
                 ])
                 .to_string(),
             _ => format!("{}", self.rng.below(100_000)),
